@@ -34,11 +34,12 @@ RULE = ("a case = one (configuration, kill point k, phase before/after) of the r
         "and the resumed run's mutation trace equals the model's; distinct by (configuration, k, phase[, threads]); plus one "
         "case per uninterrupted-run trace comparison (--threads 1, each pool run under its observed schedule, the "
         "--sqanti_output run, the two-experiment invocation)")
-TRUSTED = ["harness/c07_wrap.py observes open()/gzip.open()/os.remove() and flush/close of files opened through builtins.open; "
+TRUSTED = ["harness/c07_wrap.py observes open()/gzip.open()/os.remove()/os.replace()/os.rename() and flush/close of files opened through builtins.open; "
            "writes through other channels (sqlite, pysam, pyfaidx) are not observed and lie outside the modelled stages",
-           "pyfaidx writes the FASTA index `<reference>.fai` in place, after `.params` was saved, when it is missing or older than "
-           "the FASTA; this write is taken as atomic (known finding C07 `fai_index_partial`: a kill inside it leaves an index "
-           "that is cut at a line boundary and newer than the FASTA, which every later run trusts)",
+           "an index of the reference inside the output folder is modelled (Cfg.idx); an index next to a reference outside the "
+           "folder is not observed (same code path), nor is the .gzi block index of a bgzip reference (written by pyfaidx in "
+           "place); mtimes: the copy of a plain-gzip reference rewritten by a run is strictly newer than an index left by an "
+           "earlier run (the code rebuilds an index that is older than its FASTA)",
            "SIGKILL of the whole process group (main process and pool workers together) stands for an interruption; data handed to "
            "the OS (flush/close) survives it; a kill of the main process alone, after which workers of the killed run keep writing "
            "while a resumed run starts, is not covered"]
@@ -71,7 +72,7 @@ ASSUMPTIONS = ["content tokens: a file is `good` iff it is the complete output o
                "runs are enumerated in the thorough tier"]
 
 VARIANT_FIXED = {"flushBeforeLock": True, "dropProcessed": True, "locksFirst": True, "countUnaligned": True,
-                 "refRewrite": True}
+                 "refRewrite": True, "faiAtomic": True}
 # development aid only (docs/C07.md, "the pinned variant against the pinned tree"): VERIF_C07_VARIANT=pinned compares a
 # checkout of the tree before the fix: commits (VERIF_REPO) with the model's `pinned` variant
 if os.environ.get("VERIF_C07_VARIANT") == "pinned":
@@ -80,6 +81,11 @@ if os.environ.get("VERIF_C07_VARIANT") == "pinned":
 # compares a tree without the repair of DatasetProcessor.__init__ with the model's `refRewrite = false` behaviour
 if os.environ.get("VERIF_C07_REF_ORIG") == "1":
     VARIANT_FIXED = dict(VARIANT_FIXED, refRewrite=False)
+# VERIF_C07_FAI_ORIG=1: a tree before eab0ef3 (pyfaidx writes the index in place; the index of an unpacked copy lies next to
+# the compressed file, outside the folder) against the model's `faiAtomic = false` behaviour
+FAI_ORIG = os.environ.get("VERIF_C07_FAI_ORIG") == "1"
+if FAI_ORIG:
+    VARIANT_FIXED = dict(VARIANT_FIXED, faiAtomic=False)
 
 SUFFIX = {"corrected_reads.bed": "bed", "read_assignments.tsv": "assign", "transcript_models.gtf": "gtf",
           "transcript_model_reads.tsv": "r2t", "extended_annotation.gtf": "ext", "gene_counts.tsv": "gene",
@@ -94,11 +100,48 @@ TPM = {"gene_tpm.tsv": "gene", "transcript_tpm.tsv": "tr", "transcript_model_tpm
        "gene_grouped_tpm.tsv": "geneG", "transcript_grouped_tpm.tsv": "trG", "transcript_model_grouped_tpm.tsv": "modelG"}
 
 
+class PathTable(dict):
+    """relative file name -> model path; besides the exact names, names given by a pattern (a temporary file whose name
+    contains a random hex string: `<index>.<uuid4 hex>.tmp`)"""
+
+    def __init__(self, *a, **kw):
+        dict.__init__(self, *a, **kw)
+        self.patterns = list(getattr(a[0], "patterns", [])) if a and isinstance(a[0], PathTable) else []
+
+    def _pat(self, rel):
+        if isinstance(rel, str):
+            for rx, mp in self.patterns:
+                if rx.fullmatch(rel):
+                    return mp
+        return None
+
+    def get(self, rel, default=None):
+        if dict.__contains__(self, rel):
+            return dict.__getitem__(self, rel)
+        mp = self._pat(rel)
+        return default if mp is None else mp
+
+    def __contains__(self, rel):
+        return dict.__contains__(self, rel) or self._pat(rel) is not None
+
+    def __missing__(self, rel):
+        mp = self._pat(rel)
+        if mp is None:
+            raise KeyError(rel)
+        return mp
+
+    def add_index(self, fasta_rel):
+        """the index of `fasta_rel` inside the output folder and the temporary names it is built under"""
+        import re
+        self[fasta_rel + ".fai"] = ["refFai"]
+        self.patterns.append((re.compile(re.escape(fasta_rel + ".fai.") + r"[0-9a-f]{32}\.tmp"), ["refFaiTmp"]))
+
+
 def path_table(chrs, prefix=R.PREFIX):
     """relative file name -> model path (JSON list); chromosome = index in processing order"""
     P = prefix
-    t = {".params": ["params"], "%s/aux/%s.read_group_lock" % (P, P): ["rgLock"],
-         "%s/aux/%s.save_info" % (P, P): ["info"], "%s/aux/%s.save_lock" % (P, P): ["lock"]}
+    t = PathTable({".params": ["params"], "%s/aux/%s.read_group_lock" % (P, P): ["rgLock"],
+                   "%s/aux/%s.save_info" % (P, P): ["info"], "%s/aux/%s.save_lock" % (P, P): ["lock"]})
     for suf, s in SUFFIX.items():
         t["%s/%s.%s" % (P, P, suf)] = ["final", s]
         if s in GZIPPED:
@@ -124,7 +167,7 @@ def path_table(chrs, prefix=R.PREFIX):
 
 def saves_table(chrs, table):
     """`--read_assignments` scenario: the kept save files live in <out>/saves/ with the prefix S.save"""
-    t = dict(table)
+    t = PathTable(table)
     t["saves/S.save_info"] = ["info"]
     t["saves/S.save_lock"] = ["lock"]
     for i, c in enumerate(chrs):
@@ -147,8 +190,8 @@ def canon_trace(trace, table):
     unknown:   relative paths that have no path class"""
     muts, commits, unknown = [], [], []
     for n, op, rel in trace:
-        if is_log(rel):
-            continue
+        if is_log(rel) or (n is None and op == "read"):
+            continue            # (read accesses are no mutations; those to the save files are compared by save_reads)
         mp = table.get(rel)
         if mp is None:
             unknown.append(rel)
@@ -163,7 +206,11 @@ def canon_trace(trace, table):
             if op.startswith("gzip:") != (mp[0] == "finalGz"):
                 unknown.append("%s opened with %s" % (rel, op))     # a gzip stream under a plain name, or the reverse
         else:
+            # os.remove; os.replace(src, dst) (op `replace:<dst>`, path = src): the source name disappears - the model's
+            # `remove src` - and the destination holds its content (the commits that follow that event in the model)
             o = "remove"
+            if op.startswith("replace:") and table.get(op.split(":", 1)[1]) is None:
+                unknown.append("%s renamed to %s" % (rel, op.split(":", 1)[1]))
         muts.append((n, o, mp))
     # the lock files removed by a fresh run before `.params` is written come from globs: order them as the model does
     pi = next((i for i, m in enumerate(muts) if m[2] == ["params"]), 0)
@@ -217,6 +264,8 @@ def completion_check(real_muts, real_commits, m_muts, m_commits):
     for g, p in real_commits:
         rc.setdefault(json.dumps(p), []).append(g)
     for g, p, tok in m_commits:
+        if p[0] in ("refFaiData", "refFai"):
+            continue            # installed by os.replace of a file that was completed under its temporary name
         key = json.dumps(p)
         ps = pos.get(key, [])
         start = max([i for i in ps if i < g], default=None)     # the mutation that opened the epoch
@@ -336,7 +385,8 @@ class Session:
                 "unmapped": bool(self.cfg.get("unmapped")), "fromSaves": self.from_saves,
                 "sqanti": bool(self.cfg.get("sqanti")), "countExons": bool(self.cfg.get("count_exons")),
                 "noModel": bool(self.cfg.get("no_model")), "gzip": bool(self.cfg.get("gzip")),
-                "highMemory": bool(self.cfg.get("high_memory")), "gzRef": bool(self.cfg.get("gz_ref"))}
+                "highMemory": bool(self.cfg.get("high_memory")), "gzRef": bool(self.cfg.get("gz_ref")),
+                "idx": bool(self.cfg.get("fai")) or (bool(self.cfg.get("gz_ref")) and not FAI_ORIG)}
 
     def resume_opts(self):
         """what the resume command line sets: `--resume [--high_memory]`; an option that is not repeated keeps the value of
@@ -392,10 +442,10 @@ class Session:
             special = ctx.rng.sample(special, min(len(special), 8))
             rest = [p for p in allp if p not in special and p not in early]
             return sorted(set(early + special + ctx.rng.sample(rest, min(len(rest), 8))))
-        if len(special) > 28:
-            special = ctx.rng.sample(special, 28)
+        if len(special) > 24:
+            special = ctx.rng.sample(special, 24)
         rest = [p for p in allp if p not in special]
-        return sorted(set(special + ctx.rng.sample(rest, min(len(rest), 22))))
+        return sorted(set(special + ctx.rng.sample(rest, min(len(rest), 14))))
 
     def run_point(self, k, ph, threads=1):
         key = (k, ph, threads)
@@ -522,8 +572,9 @@ class GzRefSession(Session):
         Session.__init__(self, base, idx, cfg, data)
 
     def setup(self):
-        self.table = dict(self.table)
+        self.table = PathTable(self.table)
         self.table[R.GZ_REF_NAME] = ["refFa"]
+        self.table.add_index(R.GZ_REF_NAME)
         if not self.cfg.get("stale_ref"):
             return
         # the earlier run: same flags, a reference of the same name without the first chromosome of the BAM header
@@ -574,17 +625,17 @@ class GzRefSession(Session):
 
 
 class FaiSession(Session):
-    """oracle only (known finding `fai_index_partial`, docs/C07.md D2): pyfaidx writes a missing `<reference>.fai` in place
-    after `.params` was saved.  To see that write, the (uncompressed, unindexed) reference is put *inside* the output folder
-    (`<out>/ref/`): the wrapper then numbers the `open("w")` of the index like any other mutation and can kill the run
-    right after it - the index exists, is empty and is newer than the FASTA.  Not part of the correspondence: the model
-    has no path class for the index (trusted base: the index write is taken as atomic)."""
+    """a reference without index **inside** the output folder (`<out>/ref/genome.fa`): load_indexed_reference builds the index
+    as `<fai>.<hex>.tmp` and renames it - mutations of the output folder the wrapper numbers like any other (model:
+    `Cfg.idx`, `refIndexActs`).  Kill points: both phases of the `open` of the temporary index and of the rename, the next
+    mutation, both phases of the first lock, a few sampled.  On a tree before eab0ef3 pyfaidx opens the index itself: the
+    kill right after that `open` leaves an empty index every later run trusts (`fai_index_partial`)."""
     kind = "fai"
     FASTA = "ref/genome.fa"
 
     def setup(self):
-        self.table = dict(self.table)
-        self.table[self.FASTA + ".fai"] = ["refFai"]
+        self.table = PathTable(self.table)
+        self.table.add_index(self.FASTA)
 
     def prepare(self, wd):
         os.makedirs(os.path.join(wd, "out", "ref"), exist_ok=True)
@@ -594,8 +645,35 @@ class FaiSession(Session):
         return R.cli_args(self.cfg, self.data, threads=threads, ref=os.path.join(wd, "out", self.FASTA))
 
     def points(self, ctx):
-        kf = next((n for n, o, p in self.muts if p == ["refFai"] and o == "create"), None)
-        return [] if kf is None else [(kf, "a"), (kf, "b")]
+        first, last = self.first_point(), self.muts[-1][0]
+        ks = [n for n, o, p in self.muts if p[0] in ("refFai", "refFaiTmp")]
+        around = [(k, ph) for k in ks for ph in "ba"] + ([(max(ks) + 1, "b")] if ks else [])
+        allp = [(k, ph) for k in range(first, last + 1) for ph in "ba"]
+        if ctx.tier != "quick":
+            return sorted(set(around + allp))
+        lock = [(n, ph) for n, o, p in self.muts if o == "create" and p[0] in ("collected", "lock") for ph in "ab"][:2]
+        rest = [p for p in allp if p not in around and p not in lock]
+        return sorted(set(around + lock + ctx.rng.sample(rest, min(len(rest), 2))))
+
+
+class ConvSession(Session):
+    """oracle only: the annotation is given as GTF, the run converts it (gffutils -> sqlite, `<out>/<name>.db`) between `.params`
+    and the first modelled stage.  sqlite does not write through `open()`: the wrapper sees no mutation there, so the kills
+    are timed - `<k>:t<s>` = <s> seconds after the `.params` mutation returned.  Why this stage needs no place in the model
+    (docs/C07.md): a converted database is registered in the per-user cache only after the conversion has finished (and the
+    cache file is replaced atomically); `find_converted_db` trusts a database only with that entry and matching mtimes, so
+    a partial `.db` is never read: the resumed run converts again (`create_db(force=True)` unlinks and refills the file)."""
+    kind = "conv"
+    DELAYS = (0.05, 0.15, 0.3, 0.6)
+
+    def __init__(self, base, idx, cfg, data=None):
+        Session.__init__(self, base, idx, cfg, data)
+        dbs = [f for f in R.snapshot(os.path.join(self.dir, "clean", "out")).items() if f[0].endswith(".db")]
+        self.db_size = dbs[0][1] if dbs else None
+
+    def points(self, ctx):
+        np_ = self.first_point() - 1
+        return [(np_, "t%g" % d) for d in self.DELAYS]
 
 
 class SqantiSession(Session):
@@ -661,10 +739,18 @@ class MultiSession(Session):
         return sorted(pts)
 
 
+GLOB_PREFIX = "run[1]"      # an experiment name that is a glob pattern not matching itself
+
+
 def pick_earlier_kill(sess, rng, what):
     """a kill point of the earlier run, by class, from the mutation trace of the plain session"""
     def first(pred):
         return next((n for n, o, p in sess.muts if pred(o, p)), None)
+    if what == "collection":     # a random point of the read collection (seed C07_a; audit 2 GAP C07-3): some chromosomes have
+        kl = next((n for n, o, p in sess.muts if o == "create" and p[0] == "lock"), 10 ** 9)      # their _collected lock,
+        k0 = next((n for n, o, p in sess.muts if o == "create" and p[0] == "collected"), 0)     # no stage lock yet
+        ks = [n for n, o, p in sess.muts if o != "remove" and k0 <= n < kl and p[0] in ("save", "groups", "bamstat", "collected")]
+        return (rng.choice(ks), "a") if ks else (None, "a")
     if what == "collected":      # during read collection: one chromosome has its _collected lock, no stage lock yet
         return first(lambda o, p: o == "create" and p[0] == "collected"), "a"
     if what == "lock":           # read collection finished
@@ -688,15 +774,19 @@ def history_sessions(ctx, plain):
     multi = sorted([s for s in cand if len(s.data["chrs"]) >= 2], key=lambda s: len(s.muts)) or cand
     base_s = multi[0]
     idx = 100
-    kinds = [ctx.rng.choice(["collected", "lock", "processed", "merge"])] if quick else ["collected", "processed", "random"]
-    if quick and ctx.rng.random() < 0.5:
-        kinds = ["collected"]
+    # quick: one dirty folder - the earlier run (other input) killed at a random point of its read collection (60 %) or at
+    # a lock / merge point -, always under an experiment name with glob metacharacters (GLOB_PREFIX: remove_previous_run_locks
+    # and the clean-up find their files through glob patterns built from the name); thorough: four histories
+    kinds = [ctx.rng.choice(["collection"] * 3 + ["lock", "processed"])] if quick else ["collected", "collection", "processed", "random"]
     for what in kinds:
         k1, ph1 = pick_earlier_kill(base_s, ctx.rng, what)
         if k1 is None:
             continue
-        res.append(DirtySession(st["base"], idx, dict(base_s.cfg), base_s.data, k1, ph1))
-        res[-1].ref_outputs = base_s.clean_outputs
+        globp = quick or what == "collection"
+        res.append(DirtySession(st["base"], idx, dict(base_s.cfg, prefix=GLOB_PREFIX) if globp else dict(base_s.cfg),
+                                base_s.data, k1, ph1))
+        if not globp:
+            res[-1].ref_outputs = base_s.clean_outputs
         if what != "collected":
             res[-1].sample_thorough = 80      # all kill points for the first history, a sample for the others
         ctx.count("history:dirty:earlier_killed_at_" + what)
@@ -753,10 +843,14 @@ def sessions(ctx):
                 ctx.count("config:gz_ref,stale_ref=%s,genedb=%s,rg=%s,keep_tmp=%s" % (stale, gcfg["genedb"], gcfg["rg"], gcfg["keep_tmp"]))
             # the FASTA index written by pyfaidx after `.params` (oracle only; known finding `fai_index_partial`); off by
             # default until known_findings.json has the entry (VERIF_C07_FAI_PROBE=1 switches it on)
-            if os.environ.get("VERIF_C07_FAI_PROBE") == "1":
+            if True:
                 st["sessions"].append(FaiSession(st["base"], 450, {"n": 2, "genedb": False, "rg": "none", "keep_tmp": False,
                                                                     "unmapped": False, "seed": 4711, "fai": True}))
                 ctx.count("config:fai_index_inside_output_folder")
+            # GTF input: timed kills inside the annotation conversion (oracle only)
+            st["sessions"].append(ConvSession(st["base"], 460, {"n": 2, "genedb": True, "rg": "none", "keep_tmp": False,
+                                                                 "unmapped": False, "seed": 4712, "gtf_input": True}))
+            ctx.count("config:gtf_input_conversion_inside_the_run")
             # --sqanti_output (toy data) and a two-experiment invocation with unaligned reads in both alignment files
             st["sessions"].append(SqantiSession(st["base"], 200, {"toy": True, "n": 1, "genedb": True, "rg": "none",
                                                                   "keep_tmp": False, "unmapped": False, "seed": 0,
@@ -769,18 +863,123 @@ def sessions(ctx):
     return st["sessions"]
 
 
+def second_kill_points(ctx, sess):
+    """two interruptions (plain sessions): the first kill right after the first `_collected` lock, the second one inside the
+    resumed run - before / right after its own `open` of `.params` (save_params rewrites the file), before its next
+    mutation, and at sampled later mutations.  -> [(k1, ph1, k2, ph2)], numbering of the resumed run from the trace of an
+    uninterrupted resume after the same first kill"""
+    key = ("second", id(sess))
+    st = _state(ctx)
+    if key in st:
+        return st[key]
+    st[key] = []
+    k1 = next((n for n, o, p in sess.muts if o == "create" and p[0] == "collected"), None)
+    if k1 is None:
+        return st[key]
+    r1 = sess.run_point(k1, "a")
+    if r1["verdict"] != "EQUAL":
+        return st[key]
+    rt = canon_trace(r1.get("resume_trace", []), sess.table)[0]
+    np_ = next((n for n, o, p in rt if p == ["params"]), None)
+    if np_ is None:
+        return st[key]
+    later = [n for n, o, p in rt if n > np_ + 1]
+    extra = ctx.rng.sample(later, min(len(later), 2 if ctx.tier == "quick" else 12))
+    st[key] = [(k1, "a", np_, "b"), (k1, "a", np_, "a"), (k1, "a", np_ + 1, "b")] + \
+        [(k1, "a", n, ctx.rng.choice("ab")) for n in sorted(extra)]
+    sess.second_resume_muts = rt
+    return st[key]
+
+
+def run_second(ctx, sess, pts):
+    st = _state(ctx)
+
+    def one(p):
+        key = ("second_res", id(sess), p)
+        if key not in st:
+            k1, ph1, k2, ph2 = p
+            wd = os.path.join(sess.dir, "t2_%d%s_%d%s" % p)
+            st[key] = R.crash_resume_twice(wd, sess.cfg, sess.data, k1, ph1, k2, ph2, sess.clean_outputs, prepare=sess.prepare,
+                                           args=lambda w: sess.args(w), prefix=sess.prefix)
+            shutil.rmtree(wd, ignore_errors=True)
+        return st[key]
+    with ThreadPoolExecutor(st["workers"]) as ex:
+        return list(ex.map(one, pts))
+
+
+def second_kill_check(ctx, sess, tag, mcfg, ord1, m_muts, evs1):
+    """verdicts of two interruptions against the model (driver op C07.verdict2 = `verdictTwice`)"""
+    pts = second_kill_points(ctx, sess)
+    if not pts:
+        return
+    res = run_second(ctx, sess, pts)
+    off = sess.muts[0][0] - 1
+    rt = sess.second_resume_muts
+    off2 = rt[0][0] - 1
+    k1, ph1 = pts[0][0], pts[0][1]
+    idx1 = model_index(m_muts, k1 - off, ph1, evs1)
+    mo1 = ctx.driver.run([vlib.req("C07.verdict", variant=VARIANT_FIXED, cfg=mcfg, ord=ord1, ord2=sess.cleanup_order(rt), k=idx1,
+                                   fs0=sess.fs0, **sess.resume_opts())])[0]
+    if isinstance(mo1, dict) and "driver_error" in mo1:
+        ctx.disagree("second_kill", {"config": sess.cfg}, mo1, None)
+        return
+    evs2 = mo1["resumed"]["evs"]
+    m2 = model_muts(evs2)[0]
+    lines, keep = [], []
+    for p, r in zip(pts, res):
+        j2 = p[2] - off2
+        if r["verdict"] == "NOCRASH" or j2 < 1 or j2 > len(m2):
+            ctx.count("second_kill_not_reached")
+            continue
+        idx2 = model_index(m2, j2, p[3], evs2)
+        lines.append(vlib.req("C07.verdict2", variant=VARIANT_FIXED, cfg=mcfg, ord=ord1, ord2=sess.cleanup_order(rt),
+                              ord3=sess.cleanup_order(canon_trace(r.get("resume_trace", []), sess.table)[0]), k=idx1, k2=idx2,
+                              fs0=sess.fs0, **sess.resume_opts()))
+        keep.append((p, r, idx2))
+    for mo, (p, r, idx2) in zip(ctx.driver.run(lines), keep):
+        ctx.evaluations += 1
+        inp = {"config": sess.cfg, "history": sess.history, "k": p[0], "phase": p[1], "k2": p[2], "phase2": p[3],
+               "model_index": [idx1, idx2]}
+        if isinstance(mo, dict) and "driver_error" in mo:
+            ctx.disagree("second_kill", inp, mo, None)
+            continue
+        ctx.count("second_kill:" + r["verdict"])
+        bad = []
+        if mo["verdict"] != r["verdict"]:
+            bad.append("verdict after two interruptions: model %s, real %s (%s)" % (mo["verdict"], r["verdict"], r["detail"][:200]))
+        real_files = {json.dumps(sess.table[f]) for f in r["snapshot"] if f in sess.table}
+        model_files = {json.dumps(q) for q, _ in mo["crash2"]}
+        if real_files != model_files:
+            bad.append("files after the second kill differ: only real %s, only model %s" %
+                       (sorted(real_files - model_files)[:4], sorted(model_files - real_files)[:4]))
+        if bad:
+            ctx.disagree("second_kill", inp, bad, r["verdict"])
+        else:
+            ctx.mark_nontrivial([tag, "second"] + list(p))
+
+
 def run_points(ctx, sess, pts):
     st = _state(ctx)
     with ThreadPoolExecutor(st["workers"]) as ex:
         return list(ex.map(lambda p: sess.run_point(p[0], p[1]), pts))
 
 
-def model_index(m_muts, j, ph):
+def model_index(m_muts, j, ph, evs=None):
     """number of model events executed when the run is killed before ('b') / right after ('a') its j-th mutation (1-based);
     'w' = inside the write session the mutation opened (part of the content is in the file): in the model the state after
     the partial commit that follows the open (`commit refFa stale`: the first pieces of the copy are in the file)"""
     i = m_muts[j - 1][0]
-    return i if ph == "b" else (i + 2 if ph == "w" else i + 1)
+    if ph == "b":
+        return i
+    if ph == "w":
+        return i + 2
+    k = i + 1
+    if evs is not None and evs[i][0] == "remove" and evs[i][1] == ["refFaiTmp"]:
+        # the mutation is os.replace(temporary index, index): one atomic step = `remove refFaiTmp`, `commit refFaiData`,
+        # `commit refFai` in the model
+        while k < len(evs) and evs[k][0] == "commit" and evs[k][1][0] in ("refFaiData", "refFai"):
+            k += 1
+    return k
 
 
 def correspondence(ctx):
@@ -800,8 +999,8 @@ def correspondence(ctx):
         if sess.kind == "multi":
             multi_check(ctx, sess, tag)
             continue
-        if sess.kind == "fai":
-            ctx.count("oracle_only_session:fai")         # the index write has no place in the model (trusted base)
+        if sess.kind == "conv":
+            ctx.count("oracle_only_session:conv")      # the conversion writes through sqlite: no trace to compare
             continue
         mcfg = sess.model_cfg()
         ord1 = sess.cleanup_order(sess.muts)
@@ -846,7 +1045,7 @@ def correspondence(ctx):
             if r["verdict"] == "NOCRASH" or j < 1 or j > len(m_muts):
                 ctx.count("point_not_reached")
                 continue
-            idx = model_index(m_muts, j, ph)
+            idx = model_index(m_muts, j, ph, out["evs"])
             cm, _, _ = canon_trace(r["trace"], sess.table)
             ordc = sess.cleanup_order(cm)
             ordk = ordc + [p for p in ord1 if p not in ordc] if ordc else ord1
@@ -895,6 +1094,8 @@ def correspondence(ctx):
                 if len(ctx.samples) < 8 and ctx.rng.random() < 0.1:
                     ctx.sample({"op": "crash_point", "input": inp, "killed_at": [o for n, o, p in sess.muts if n == k] +
                                 [p for n, o, p in sess.muts if n == k], "verdict": r["verdict"], "resumed_mutations": len(rr)})
+        if sess.kind == "plain" and (ctx.tier != "quick" or si == 0):
+            second_kill_check(ctx, sess, tag, mcfg, ord1, m_muts, out["evs"])
     # --- process pool: the global trace is an interleaving of the model's per-task lists; kill points of pool runs
     pool_checks(ctx)
 
@@ -1344,6 +1545,8 @@ def classify(sess, k, ph):
     if not m:
         return "unknown"
     o, p = m[0]
+    if ph.startswith("t"):
+        return "inside_conversion"
     when = {"a": "after", "w": "during_write"}.get(ph, "before")
     return "%s_%s_%s" % (when, o, p[0])
 
@@ -1387,7 +1590,25 @@ def oracle(ctx, disagreements, broken):
             res = run_points(ctx, sess, pts)
             for (k, ph), r in zip(pts, res):
                 judge(ctx, sess, k, ph, r)
+                if sess.kind == "conv" and r["verdict"] != "NOCRASH":
+                    dbs = [sz for f, sz in r["snapshot"].items() if f.endswith(".db")]
+                    ctx.count("conversion_kill:" + ("no_db_yet" if not dbs else "db_partial" if dbs[0] != sess.db_size
+                                                    else "db_complete"))
             ctx.count("oracle_points", len(pts))
+            # two interruptions: the resumed run is killed as well (plain sessions; the first one in the quick tier)
+            if sess.kind == "plain" and (ctx.tier != "quick" or sess is sessions(ctx)[0]):
+                pts2 = second_kill_points(ctx, sess)
+                for p, r in zip(pts2, run_second(ctx, sess, pts2)):
+                    if r["verdict"] in ("EQUAL", "NOCRASH"):
+                        continue
+                    m = [(o, q) for n, o, q in sess.second_resume_muts if n == p[2]]
+                    cls = "%s_%s_%s" % ("after" if p[3] == "a" else "before", m[0][0], m[0][1][0]) if m else "unknown"
+                    ctx.fail(("resume_silently_wrong:" if r["verdict"] == "DIFF" else "resume_fails:") + "second:" + cls,
+                             {"config": sess.cfg, "history": sess.history, "k": p[0], "phase": p[1], "k2": p[2], "phase2": p[3],
+                              "threads": 1},
+                             "first kill %s mutation %d, the resumed run killed %s its mutation %d %s; --resume: %s %s" %
+                             (p[1], p[0], "after" if p[3] == "a" else "before", p[2], m[:1], r["verdict"], r["detail"][:300]))
+                ctx.count("oracle_second_kill_points", len(pts2))
         # sampled kill points of pool runs (--threads 2..4; cached when the correspondence ran them), judged by the property
         plain, hist = pool_sessions(ctx)
         for sess in plain + hist:
@@ -1434,6 +1655,8 @@ def replay(ctx, failure):
             sess = GzRefSession(base, 0, cfg, data)
         elif cfg.get("fai"):
             sess = FaiSession(base, 0, cfg, data)
+        elif cfg.get("gtf_input"):
+            sess = ConvSession(base, 0, cfg, data)
         else:
             sess = Session(base, 0, cfg, data)
         if sess.clean_rc != 0:
@@ -1443,6 +1666,12 @@ def replay(ctx, failure):
                 return Session(base, 1, cfg, data).clean_outputs != sess.clean_outputs
             return False
         wd = os.path.join(base, "replay")
+        if "k2" in inp:
+            r = R.crash_resume_twice(wd, cfg, sess.data, inp["k"], inp["phase"], inp["k2"], inp["phase2"], sess.clean_outputs,
+                                     prepare=sess.prepare, args=lambda w: sess.args(w), prefix=sess.prefix)
+            print("  kill %s mutation %d, resumed run killed %s its mutation %d, --resume: %s %s" %
+                  (inp["phase"], inp["k"], inp["phase2"], inp["k2"], r["verdict"], r["detail"][:300]))
+            return r["verdict"] not in ("EQUAL", "NOCRASH")
         r = R.crash_resume(wd, cfg, sess.data, inp["k"], inp["phase"], sess.clean_outputs, threads=inp.get("threads", 1),
                            prepare=sess.prepare, args=lambda w: sess.args(w, inp.get("threads", 1)), prefix=sess.prefix)
         print("  kill %s mutation %d, --resume: %s %s" % (inp["phase"], inp["k"], r["verdict"], r["detail"][:300]))
